@@ -7,6 +7,7 @@ import (
 	"io"
 	"os"
 	"path/filepath"
+	"sync/atomic"
 
 	blocks "github.com/ipfs/go-block-format"
 	"github.com/ipfs/go-cid"
@@ -265,6 +266,17 @@ type RA interface {
 
 var ErrNoListing = errors.New("no listing")
 
+var raOpenSeq atomic.Int64
+
+// raBSPath is a blockstore opened from a path that the harness removes when the store is closed.
+type raBSPath struct {
+	raBS
+	path string
+}
+
+func (r raBSPath) Close()     { r.raBS.Close(); os.Remove(r.path) }
+func (r raBSPath) Unwrap() RA { return r.raBS }
+
 type raBS struct {
 	bs *blockstore.ReadOnly
 }
@@ -354,16 +366,18 @@ func OpenRA(kind, dir string, file []byte, o Opts) (RA, error) {
 		}
 		return raBS{bs}, nil
 	case "ro-open":
-		p := filepath.Join(dir, "ra-open.car")
+		p := filepath.Join(dir, fmt.Sprintf("ra-open-%d.car", raOpenSeq.Add(1)))
 		if err := os.WriteFile(p, file, 0o644); err != nil {
 			panic(err)
 		}
 		bs, err := blockstore.OpenReadOnly(p, opts...)
-		os.Remove(p) // mmap keeps the content
 		if err != nil {
+			os.Remove(p)
 			return nil, err
 		}
-		return raBS{bs}, nil
+		// the archive stays in place while the store is open (a store is free to open its path again);
+		// it is removed when the store is closed
+		return raBSPath{raBS{bs}, p}, nil
 	case "st-open":
 		st, err := storage.OpenReadable(bytes.NewReader(file), opts...)
 		if err != nil {
